@@ -13,6 +13,9 @@ def evidence(c):
         open_inheritance_resolved_as_inherited=st.get('collapsed_inherit', 0),
         first_registration_returned_null=st.get('first_prev_null', 0),
         first_registration_returned_default_handler=st.get('first_prev_default', 0),
+        handlers_that_re_entered_the_library=st.get('nested_actions', 0),
+        process_wide_registration_calls_run_preemptibly=st.get('preemptible_regs', 0),
+        dispatches_of_whole_api_violating_calls=st.get('api_dispatches', 0),
     )
     for k in ('dispatches', 'registration_landed_while_a_violating_call_was_in_flight', 'threads_started_on_a_dead_threads_stack_and_tls_block',
               'children_created_by_a_thread_holding_a_thread_local_registration'):
